@@ -177,6 +177,8 @@ def emit_mapped(F, kinds=KINDS, names=False):
                     r.violate("%s | elements" % fn["path"], F.loc(fn, n), "element segment function indices are emitted without the function map")
     # 4. raw const-expr copies
     for n in walk(body):
+        if not ({"func", "global"} & set(kinds)):
+            break  # constant expressions carry function/global indices only
         if n.get("k") == "MethodCall" and (n.get("inst") or n.get("callee") or "").endswith("Reencode::const_expr"):
             n_sinks += 1
             # which sink is it feeding? describe by the nearest enclosing encoder call name via source snippet
